@@ -48,8 +48,18 @@ def exhaustion_behaviour(fn, var):
 def editor_cfg(modname, clsname, gen_fn, add_fn, var, sort_key=None):
     mod = load_module(modname)
     cls = mod.classes[clsname]
-    g = find_method(mod, cls, gen_fn)[2]
     a = find_method(mod, cls, add_fn)[2]
+    if find_method(mod, cls, gen_fn) is None:
+        # the helper may have been renamed: it is the method whose result the add function pops ids from
+        popped = {n.func.value.id for n in ast.walk(a) if isinstance(n, ast.Call) and isinstance(n.func, ast.Attribute) and n.func.attr == "pop" and isinstance(n.func.value, ast.Name)}
+        for node in ast.walk(a):
+            if isinstance(node, ast.Assign) and len(node.targets) == 1 and isinstance(node.targets[0], ast.Name) and node.targets[0].id in popped \
+                    and isinstance(node.value, ast.Call) and isinstance(node.value.func, ast.Attribute) and isinstance(node.value.func.value, ast.Name) \
+                    and node.value.func.value.id in ("self", "cls"):
+                gen_fn = node.value.func.attr
+    if find_method(mod, cls, gen_fn) is None:
+        raise TranslatorGap(f"{clsname}: cannot find the method that produces the free ids")
+    g = find_method(mod, cls, gen_fn)[2]
     lo, hi, reserved = range_bounds(mod, cls, g)
     gsrc = ast.unparse(g)
     # the local variable holding the free ids is whatever the result of the generator is bound to
